@@ -21,6 +21,9 @@ structure Table.Good (T : Table) : Prop where
   rparen_not_binary : T.binaryOf .TkRightParen = .OpNop
   rbracket_not_binary : T.binaryOf .TkRightBracket = .OpNop
   comma_not_binary : T.binaryOf .TkComma = .OpNop
+  rbrace_not_binary : T.binaryOf .TkRightBrace = .OpNop
+  lbrace_not_unary : T.unaryOf .TkLeftBrace = .OpNop
+  function_not_unary : T.unaryOf .TkFunction = .OpNop
 
 /-- prefix expressions (`prefixexp` of the manual): what a suffix may be attached to -/
 def IsPrefix : Expr → Bool
@@ -47,9 +50,18 @@ def Fits (T : Table) : Int → Expr → Prop
   | _, .idx p k => IsPrefix p = true ∧ Fits T 0 p ∧ Fits T 0 k
   | _, .call p as => IsPrefix p = true ∧ Fits T 0 p ∧ FitsArgs T as
   | _, .mcall p as => IsPrefix p = true ∧ Fits T 0 p ∧ FitsArgs T as
+  | _, .table fs => FitsFields T fs
+  | _, .closure _ _ => True
 def FitsArgs (T : Table) : Args → Prop
   | .nil => True
   | .cons e r => Fits T 0 e ∧ FitsArgs T r
+def FitsFields (T : Table) : Fields → Prop
+  | .nil => True
+  | .cons f r => FitsField T f ∧ FitsFields T r
+def FitsField (T : Table) : Field → Prop
+  | .pos e => Fits T 0 e
+  | .named e => Fits T 0 e
+  | .keyed k e => Fits T 0 k ∧ Fits T 0 e
 end
 
 mutual
@@ -64,9 +76,18 @@ def need : Expr → Nat
   | .idx p k => need p + need k + 1
   | .call p as => need p + needArgs as + 1
   | .mcall p as => need p + needArgs as + 1
+  | .table fs => needFields fs + 2
+  | .closure _ _ => 1
 def needArgs : Args → Nat
   | .nil => 0
   | .cons e r => need e + needArgs r + 2
+def needFields : Fields → Nat
+  | .nil => 0
+  | .cons f r => needField f + needFields r + 2
+def needField : Field → Nat
+  | .pos e => need e + 2
+  | .named e => need e + 2
+  | .keyed k e => need k + need e + 2
 end
 
 /-- what may follow `e` for `e` to be returned intact: no suffix start, no extension token, and a binary
@@ -93,11 +114,19 @@ theorem fits_mono : ∀ (e : Expr) (l l' : Int), l' ≤ l → Fits T l e → Fit
     exact ⟨h1, by omega, fits_mono a l l' hle h3, h4, h5⟩
   | _ => intro l l' _ h; simp only [Fits] at h ⊢ <;> first | exact h | trivial
 
-/-- a fitting expression never starts with `)` and is not empty -/
+/-- the tokens an expression can start with -/
+def startTok (t : Tok) : Bool :=
+  isLiteral t || t == .TkName || t == .TkLeftParen || t == .TkLeftBrace || t == .TkFunction || t == .TkNot ||
+  t == .TkLen || t == .TkMinus || t == .TkBitXor
+
+theorem startTok_ne (t : Tok) (h : startTok t = true) :
+    t ≠ .TkRightParen ∧ t ≠ .TkRightBrace ∧ t ≠ .TkLeftBracket ∧ t ≠ .TkLocal ∧ t ≠ .TkAssign := by
+  cases t <;> simp [startTok, isLiteral] at h ⊢
+
+/-- a fitting expression is not empty and starts with a start token -/
 theorem flat_head : ∀ (e : Expr) (l : Int), Fits T l e →
-    ∃ t ts, flat e = t :: ts ∧ t ≠ .TkRightParen
-  | .lit t, _, h => ⟨t, [], by simp [flat], by
-      simp only [Fits] at h; intro ht; subst ht; simp [isLiteral] at h⟩
+    ∃ t ts, flat e = t :: ts ∧ startTok t = true
+  | .lit t, _, h => ⟨t, [], by simp [flat], by simp only [Fits] at h; simp [startTok, h]⟩
   | .name, _, _ => ⟨.TkName, [], by simp [flat], by decide⟩
   | .paren e, _, _ => ⟨.TkLeftParen, flat e ++ [.TkRightParen], by simp [flat], by decide⟩
   | .un op x, _, h => ⟨unTok op, flat x, by simp [flat], by
@@ -122,6 +151,62 @@ theorem flat_head : ∀ (e : Expr) (l : Int), Fits T l e →
       simp only [Fits] at h
       obtain ⟨t, ts, h1, h2⟩ := flat_head p 0 h.2.1
       exact ⟨t, _, by simp [flat, h1]; rfl, h2⟩
+  | .table fs, _, _ => ⟨.TkLeftBrace, flatFields fs ++ [.TkRightBrace], by simp [flat], by decide⟩
+  | .closure n va, _, _ => ⟨.TkFunction, _, by simp [flat]; rfl, by decide⟩
+
+/-- after an expression that starts with a name, `=` can only come from what follows the expression (so a
+positional table field is never mistaken for `name = value`) -/
+theorem flat_name_second (hT : T.Good) : ∀ (e : Expr) (l : Int), Fits T l e → ∀ ts, flat e = .TkName :: ts →
+    ∀ rest : List Tok, rest.head? ≠ some .TkAssign → (ts ++ rest).head? ≠ some .TkAssign
+  | .lit t, _, h, ts, hf, _, _ => by
+      simp only [Fits] at h; simp only [flat, List.cons.injEq] at hf
+      obtain ⟨rfl, _⟩ := hf; simp [isLiteral] at h
+  | .name, _, _, ts, hf, rest, hr => by
+      simp only [flat, List.cons.injEq] at hf; obtain ⟨_, rfl⟩ := hf; simpa using hr
+  | .paren e, _, _, ts, hf, _, _ => by simp [flat] at hf
+  | .un op x, _, h, ts, hf, _, _ => by
+      simp only [Fits] at h; simp only [flat, List.cons.injEq] at hf
+      cases op <;> first | exact absurd rfl h.1 | simp [unTok] at hf
+  | .bin op a b, l, h, ts, hf, rest, _ => by
+      simp only [Fits] at h
+      obtain ⟨t, ts', h1, _⟩ := flat_head a l h.2.2.1
+      simp only [flat, h1, List.cons_append, List.cons.injEq] at hf
+      obtain ⟨rfl, rfl⟩ := hf
+      have := flat_name_second hT a l h.2.2.1 ts' h1 (binTok op :: (flat b ++ rest)) (by
+        have := h.1
+        cases op <;> first | exact absurd rfl this | simp [binTok])
+      simpa [List.append_assoc] using this
+  | .dot p, _, h, ts, hf, rest, _ => by
+      simp only [Fits] at h
+      obtain ⟨t, ts', h1, _⟩ := flat_head p 0 h.2
+      simp only [flat, h1, List.cons_append, List.cons.injEq] at hf
+      obtain ⟨rfl, rfl⟩ := hf
+      have := flat_name_second hT p 0 h.2 ts' h1 (.TkDot :: .TkName :: rest) (by simp)
+      simpa [List.append_assoc] using this
+  | .idx p k, _, h, ts, hf, rest, _ => by
+      simp only [Fits] at h
+      obtain ⟨t, ts', h1, _⟩ := flat_head p 0 h.2.1
+      simp only [flat, h1, List.cons_append, List.cons.injEq] at hf
+      obtain ⟨rfl, rfl⟩ := hf
+      have := flat_name_second hT p 0 h.2.1 ts' h1 (.TkLeftBracket :: (flat k ++ .TkRightBracket :: rest)) (by simp)
+      simpa [List.append_assoc] using this
+  | .call p as, _, h, ts, hf, rest, _ => by
+      simp only [Fits] at h
+      obtain ⟨t, ts', h1, _⟩ := flat_head p 0 h.2.1
+      simp only [flat, h1, List.cons_append, List.cons.injEq] at hf
+      obtain ⟨rfl, rfl⟩ := hf
+      have := flat_name_second hT p 0 h.2.1 ts' h1 (.TkLeftParen :: (flatArgs as ++ .TkRightParen :: rest)) (by simp)
+      simpa [List.append_assoc] using this
+  | .mcall p as, _, h, ts, hf, rest, _ => by
+      simp only [Fits] at h
+      obtain ⟨t, ts', h1, _⟩ := flat_head p 0 h.2.1
+      simp only [flat, h1, List.cons_append, List.cons.injEq] at hf
+      obtain ⟨rfl, rfl⟩ := hf
+      have := flat_name_second hT p 0 h.2.1 ts' h1
+        (.TkColon :: .TkName :: .TkLeftParen :: (flatArgs as ++ .TkRightParen :: rest)) (by simp)
+      simpa [List.append_assoc] using this
+  | .table fs, _, _, ts, hf, _, _ => by simp [flat] at hf
+  | .closure n va, _, _, ts, hf, _, _ => by simp [flat] at hf
 
 /-! ### One-step unfoldings of the parser functions -/
 
@@ -197,7 +282,12 @@ theorem suffix_stop (g : Nat) (limit : Int) (cm : Expr) (rest : List Tok)
     have b : t ≠ .TkLeftBracket := by intro e; subst e; simp [isSuffixStart] at h1
     have c : t ≠ .TkColon := by intro e; subst e; simp [isSuffixStart] at h1
     have d : t ≠ .TkLeftParen := by intro e; subst e; simp [isSuffixStart] at h1
-    simp [suffix, a, b, c, d, h2]
+    have e1 : t ≠ .TkLeftBrace := by intro e; subst e; simp [isSuffixStart] at h1
+    have e2 : isStringTok t = false := by
+      cases hs : isStringTok t with
+      | false => rfl
+      | true => cases t <;> simp [isStringTok] at hs <;> simp [isSuffixStart] at h1
+    simp [suffix, a, b, c, d, e1, e2, h2]
 
 theorem args_last (f : Nat) (ts r : List Tok) (e : Expr) (hs : sub T f 0 ts = .ok (e, .TkRightParen :: r)) :
     args T (f + 1) ts = .ok (.cons e .nil, r) := by
@@ -207,5 +297,75 @@ theorem args_more (f : Nat) (ts r r' : List Tok) (e : Expr) (as : Args)
     (hs : sub T f 0 ts = .ok (e, .TkComma :: r)) (hh : r.head? ≠ some .TkRightParen)
     (ha : args T f r = .ok (as, r')) : args T (f + 1) ts = .ok (.cons e as, r') := by
   simp [args, hs, hh, ha]
+
+/-! ### Tables and closures -/
+
+theorem sub_table (f : Nat) (limit : Int) (ts r : List Tok) (fs : Fields) (h : T.unaryOf .TkLeftBrace = .OpNop)
+    (hs : tableP T f ts = .ok (fs, r)) :
+    sub T (f + 1) limit (.TkLeftBrace :: ts) = loop T f limit (.table fs) r := by
+  simp [sub, h, isLiteral, hs]
+
+theorem tableP_nil (f : Nat) (r : List Tok) : tableP T (f + 1) (.TkRightBrace :: r) = .ok (.nil, r) := by
+  simp [tableP]
+
+theorem tableP_fields (f : Nat) (ts : List Tok) (h : ts.head? ≠ some .TkRightBrace) :
+    tableP T (f + 1) ts = fieldsP T f ts := by
+  simp [tableP, h]
+
+theorem fieldsP_last (f : Nat) (ts r : List Tok) (fd : Field) (h : fieldP T f ts = .ok (fd, .TkRightBrace :: r)) :
+    fieldsP T (f + 1) ts = .ok (.cons fd .nil, r) := by
+  simp [fieldsP, h]
+
+theorem fieldsP_more (f : Nat) (ts r r' : List Tok) (fd : Field) (fs : Fields)
+    (h : fieldP T f ts = .ok (fd, .TkComma :: r)) (hh : r.head? ≠ some .TkRightBrace)
+    (hr : fieldsP T f r = .ok (fs, r')) : fieldsP T (f + 1) ts = .ok (.cons fd fs, r') := by
+  simp [fieldsP, h, hh, hr]
+
+theorem fieldP_keyed (f : Nat) (ts r r' : List Tok) (k e : Expr)
+    (h1 : sub T f 0 ts = .ok (k, .TkRightBracket :: .TkAssign :: r)) (h2 : sub T f 0 r = .ok (e, r')) :
+    fieldP T (f + 1) (.TkLeftBracket :: ts) = .ok (.keyed k e, r') := by
+  simp [fieldP, h1, h2]
+
+theorem fieldP_named (f : Nat) (ts r : List Tok) (e : Expr) (h : sub T f 0 ts = .ok (e, r)) :
+    fieldP T (f + 1) (.TkName :: .TkAssign :: ts) = .ok (.named e, r) := by
+  simp [fieldP, h]
+
+theorem fieldP_pos (f : Nat) (t : Tok) (ts r : List Tok) (e : Expr) (h1 : t ≠ .TkLeftBracket)
+    (h2 : t = .TkName → ts.head? ≠ some .TkAssign) (h3 : t ≠ .TkLocal)
+    (h : sub T f 0 (t :: ts) = .ok (e, r)) : fieldP T (f + 1) (t :: ts) = .ok (.pos e, r) := by
+  by_cases hn : t = .TkName
+  · subst hn; simp [fieldP, h2 rfl, h]
+  · simp [fieldP, h1, hn, h3, h]
+
+theorem paramToks_head (n : Nat) (va : Bool) (h : ¬ (n = 0 ∧ va = false)) (r : List Tok) :
+    (paramToks n va ++ .TkRightParen :: r).head? ≠ some .TkRightParen := by
+  cases n with
+  | zero => cases va <;> simp [paramToks] at h ⊢
+  | succ n => simp [paramToks]
+
+theorem paramList_toks : ∀ (n : Nat) (va : Bool) (m : Nat) (r : List Tok), ¬ (n = 0 ∧ va = false) →
+    paramList (paramToks n va ++ .TkRightParen :: r) m = .ok (m + n, va, r)
+  | 0, va, m, r, h => by cases va <;> simp [paramToks, paramList] at h ⊢
+  | n + 1, va, m, r, _ => by
+    by_cases hl : n = 0 ∧ va = false
+    · obtain ⟨rfl, rfl⟩ := hl
+      simp [paramToks, paramList]
+    · have ih := paramList_toks n va (m + 1) r hl
+      have hh := paramToks_head n va hl r
+      simp only [paramToks, hl, if_false, List.cons_append]
+      simp only [paramList, if_true, hh, if_false, ih]
+      simp; omega
+
+theorem sub_closure (f : Nat) (limit : Int) (n : Nat) (va : Bool) (rest : List Tok)
+    (h : T.unaryOf .TkFunction = .OpNop) :
+    sub T (f + 1) limit (.TkFunction :: .TkLeftParen :: (paramToks n va ++ .TkRightParen :: .TkEnd :: rest)) =
+      loop T f limit (.closure n va) rest := by
+  by_cases hl : n = 0 ∧ va = false
+  · obtain ⟨rfl, rfl⟩ := hl
+    simp [sub, h, isLiteral, paramToks]
+  · have hp := paramList_toks n va 0 (.TkEnd :: rest) hl
+    have hh := paramToks_head n va hl (.TkEnd :: rest)
+    generalize paramToks n va ++ .TkRightParen :: .TkEnd :: rest = l at hp hh
+    simp [sub, h, isLiteral, hh, hp]
 
 end Climb
